@@ -212,6 +212,23 @@ class History:
             del self.pool[self.rng.randrange(0, 30)]
         probes = probes_for(schema, self.rng)
         self.pool.append({"schema": schema, "probes": probes, "base": snapshot(schema, probes), "origin": origin})
+        # history independence of the printed form: an equal schema rebuilt from fresh objects (never printed, never
+        # nested before) must print identically
+        try:
+            from ..build import build as _build
+            spec = dec.decode(schema)
+            # (only for schemas in the DSL's own normal form: results of substitution may hold e.g. un-flattened unions,
+            # which a rebuild through the DSL would normalise)
+            if dec.spec_eq(spec, dec.normalise(spec)) and \
+                    not any(n.get("wrap") for _, n in __import__("rv.spec", fromlist=["walk"]).walk(spec)):
+                fresh = _build(spec)
+                self.ctx.count("repr_history_independence_checks")
+                if repr(fresh) != repr(schema):
+                    self.ctx.violation("repr_depends_on_history", {
+                        "schema_origin": origin, "pooled_repr": repr(schema)[:300], "fresh_rebuild_repr": repr(fresh)[:300],
+                        "history_tail": list(self.ctx._tail)})
+        except Exception:
+            pass
 
     def pick(self, pred=None):
         cands = [e for e in self.pool if pred is None or pred(e["schema"])]
